@@ -446,6 +446,8 @@ fn instance(doc: &Value, schema: &Value, mode: Mode, stack: &mut Vec<String>, de
             let mut merged = serde_json::Map::new();
             let mut single: Option<Value> = None;
             for m in all {
+                // a member that only annotates (a description next to a reference) says nothing about the instance
+                if m.get("$ref").is_none() && m.get("properties").is_none() && m.get("type").is_none() && m.get("allOf").is_none() && m.get("additionalProperties").is_none() { continue; }
                 match instance(doc, m, mode, stack, depth + 1)? { Value::Object(o) => { for (k, v) in o { merged.insert(k, v); } } other => single = Some(other) }
             }
             if let (Some(v), true) = (&single, merged.is_empty()) { return Some(v.clone()); }
